@@ -43,6 +43,11 @@ def c01(out, tv):
         oc, det = atts[-1]
         if oc == 'missing_input' and not provided_now(out, det):
             Mi.add(det)
+    # a line that received a value for an input the file does not hold (and that
+    # was never supplied) skipped a needed input silently
+    for (key, outcome, value, provided, raw, attempt) in tv.input_reads:
+        if outcome == 'value' and not provided and not provided_now(out, key):
+            Mi.add(key)
     D = demanded(out, tv)
     stored = set(tv.stored)
     B = D - stored
